@@ -10,6 +10,14 @@ OPS = ["select", "delete", "insert", "adjoin", "concat", "reorder", "sort", "gro
 def pick_args(op, n, rng):
     """arguments with numpy's meaning for an axis of current length n"""
     if op == "select":
+        r = rng.random()
+        if r < 0.25 and n >= 2:
+            # a resample of the whole axis: as many indices as entities, at least one of them repeated (bootstrap)
+            ix = [rng.randrange(n) for _ in range(n)]
+            ix[rng.randrange(n)] = ix[(rng.randrange(n - 1) + 1 + ix.index(ix[0])) % n] if len(set(ix)) == n else ix[0]
+            if len(set(ix)) == n:
+                ix[-1] = ix[0]
+            return {"ix": ix}
         k = rng.randrange(1, min(n, 4) + 2)
         return {"ix": [rng.randrange(-n, n) for _ in range(k)]}
     if op == "reorder":
